@@ -1389,6 +1389,10 @@ class ThirdCoreHexToFullCoreChanger(GeometryChanger):
         # remove the assemblies that were added when the conversion happened.
         if bool(self._newAssembliesAdded):
             for a in self._newAssembliesAdded:
+                # convert() entered the location of each new assembly into its source's zone
+                zone = r.core.zones.findZoneItIsIn(a) if len(r.core.zones) > 0 else None
+                if zone:
+                    zone.removeLoc(a.getLocation())
                 r.core.removeAssembly(a, discharge=False)
 
             r.core.symmetry = geometry.SymmetryType.fromAny(
